@@ -2,7 +2,9 @@
 //! cs, co, ch, L); `norm` applies the observable normalisation (drop zero counters and
 //! empty tag sets).  Private fields are read through serde_json.
 use crate::util::*;
-use redis_sim::replication::state::ReplicatedValue;
+use redis_sim::redis::SDS;
+use redis_sim::replication::lattice::LwwRegister;
+use redis_sim::replication::state::{CrdtValue, ReplicatedValue};
 use serde_json::Value;
 use std::collections::BTreeMap;
 
@@ -38,6 +40,30 @@ pub fn lww_term(v: &Value) -> String {
         v["timestamp"]["replica_id"].as_u64().unwrap(),
         cbool(v["tombstone"].as_bool().unwrap())
     )
+}
+/// LWW registers and hash fields are read through their public fields (not through JSON), so that
+/// a change of the JSON wire form of SDS is judged by the gossip round-trip oracle, not by this printer.
+pub fn lww_term_direct(l: &LwwRegister<SDS>) -> String {
+    format!(
+        "(L {} {} {} {})",
+        copt(&l.value, |v| chex(v.as_bytes())),
+        l.timestamp.time,
+        l.timestamp.replica_id.0,
+        cbool(l.tombstone)
+    )
+}
+pub fn crdt_term_of(v: &ReplicatedValue, norm: bool) -> String {
+    match &v.crdt {
+        CrdtValue::Lww(l) => format!("(cl {})", lww_term_direct(l)),
+        CrdtValue::Hash(h) => {
+            let m: BTreeMap<&String, &LwwRegister<SDS>> = h.iter().collect();
+            format!("(ch {})", clist(m.iter(), |(f, l)| format!("({}, {})", chex(f.as_bytes()), lww_term_direct(l))))
+        }
+        _ => {
+            let j = serde_json::to_value(v).unwrap();
+            crdt_term(&j["crdt"], norm)
+        }
+    }
 }
 pub fn crdt_term(c: &Value, norm: bool) -> String {
     let (k, v) = c.as_object().unwrap().iter().next().unwrap();
@@ -91,7 +117,7 @@ pub fn rv_term(v: &ReplicatedValue, norm: bool) -> String {
     };
     format!(
         "(V {} {} {} {} {} {})",
-        crdt_term(&j["crdt"], norm),
+        crdt_term_of(v, norm),
         vc,
         copt(&v.expiry_ms, |e| e.to_string()),
         v.timestamp.time,
@@ -110,13 +136,11 @@ pub fn kind(v: &ReplicatedValue) -> &'static str {
 /// Logical times of every stamp a value carries: outer stamp, LWW register, hash fields.
 pub fn all_times(v: &ReplicatedValue) -> Vec<u64> {
     let mut t = vec![v.timestamp.time];
-    let j = serde_json::to_value(v).unwrap();
-    let (k, c) = j["crdt"].as_object().unwrap().iter().next().unwrap();
-    match k.as_str() {
-        "Lww" => t.push(c["timestamp"]["time"].as_u64().unwrap()),
-        "Hash" => {
-            for (_, l) in c.as_object().unwrap() {
-                t.push(l["timestamp"]["time"].as_u64().unwrap());
+    match &v.crdt {
+        CrdtValue::Lww(l) => t.push(l.timestamp.time),
+        CrdtValue::Hash(h) => {
+            for (_, l) in h {
+                t.push(l.timestamp.time);
             }
         }
         _ => {}
